@@ -149,6 +149,27 @@ Fixpoint trees_match (w : world) (ts : list tree) (o : list (list (path * info))
   end.
 Definition world_matches (w : world) (o : list (list (path * info))) : bool := trees_match w w o.
 
+(* ---- the hypothesis of the reachable-world theorems, as a boolean checked on every parsed tree ---- *)
+Definition mem_path (p : path) (l : list path) : bool :=
+  existsb (fun q => if path_dec p q then true else false) l.
+Fixpoint wf_restb (ti : nat) (p : path) (seen : list path) (rest : list (path * info)) : bool :=
+  match rest with
+  | [] => true
+  | (r, i) :: rest' =>
+      negb (match r with [] => true | _ => false end) && no_hook i &&
+      (if oaddr_dec (par i) (Some (ti, p ++ removelast r)) then true else false) &&
+      mem_path (removelast r) seen && wf_restb ti p (r :: seen) rest'
+  end.
+Fixpoint nodupb (l : list path) : bool :=
+  match l with [] => true | x :: l' => negb (mem_path x l') && nodupb l' end.
+Definition wf_treeb (ti : nat) (t : tree) : bool :=
+  match t with
+  | ([], i0) :: rest =>
+      no_hook i0 && (match par i0 with None => true | Some pa => Nat.ltb (fst pa) ti end) &&
+      wf_restb ti [] [[]] rest && nodupb (map fst t)
+  | _ => false
+  end.
+
 Fixpoint check_trace (fl : flags) (w : world) (ops : list op) (obs : list (list (list (path * info)))) : bool :=
   match ops, obs with
   | [], [] => true
@@ -158,4 +179,4 @@ Fixpoint check_trace (fl : flags) (w : world) (ops : list op) (obs : list (list 
 
 (* a case: flags read from the source, the parsed tree, the ops, the world observed after each op *)
 Definition check_case (c : (bool * bool) * tree * list op * list (list (list (path * info)))) : bool :=
-  let '(f, t0, ops, obs) := c in check_trace (Flags (fst f) (snd f)) [t0] ops obs.
+  let '(f, t0, ops, obs) := c in wf_treeb 0 t0 && check_trace (Flags (fst f) (snd f)) [t0] ops obs.
